@@ -38,6 +38,8 @@ type Engine struct {
 	typeIDs   map[string]int
 	funcIDs   map[*ssa.Function]int
 	globalIdx map[*ssa.Global]int
+	globalByAddr map[Term]*ssa.Global
+	errGlobals map[*ssa.Global]int
 	modsets   map[*ssa.Function]*modset
 	unmodelled map[string]int
 	trustedUsed map[string]bool
@@ -50,7 +52,7 @@ type Engine struct {
 
 func loadEngine(repo, specDir string) (*Engine, error) {
 	eng := &Engine{repo: repo, famSorts: map[string]string{}, specFuncs: map[string]specFunc{}, seqFuncs: map[string]specFunc{},
-		typeIDs: map[string]int{}, funcIDs: map[*ssa.Function]int{}, globalIdx: map[*ssa.Global]int{},
+		typeIDs: map[string]int{}, funcIDs: map[*ssa.Function]int{}, globalIdx: map[*ssa.Global]int{}, globalByAddr: map[Term]*ssa.Global{},
 		modsets: map[*ssa.Function]*modset{}, unmodelled: map[string]int{}, trustedUsed: map[string]bool{},
 		pendingHavoc: map[string]bool{}, srcCache: map[string][]byte{}, spkgs: map[string]*ssa.Package{}, specDir: specDir}
 	fset := token.NewFileSet()
@@ -93,6 +95,7 @@ func loadEngine(repo, specDir string) (*Engine, error) {
 		return nil, err
 	}
 	eng.allFuncs = ssautil.AllFunctions(prog)
+	eng.applySweeps()
 	if err := eng.loadSpecs(); err != nil {
 		return nil, err
 	}
@@ -400,3 +403,51 @@ func (eng *Engine) funcTypeSpec(t types.Type) func(fr *Frame, x *ssa.Call, fv Va
 }
 
 var funcTypeSpecs = map[string]func(fr *Frame, x *ssa.Call, fv Val, args []Val, st *State, rch Term) Val{}
+
+// applySweeps instantiates sweep templates on every matching function.
+func (eng *Engine) applySweeps() {
+	type fk struct {
+		fn  *ssa.Function
+		key string
+	}
+	byPkg := map[string][]fk{}
+	for fn := range eng.allFuncs {
+		if fn.Synthetic != "" || fn.Blocks == nil {
+			continue
+		}
+		p := eng.pkgPathOf(fn)
+		byPkg[p] = append(byPkg[p], fk{fn, funcKey(fn)})
+	}
+	for _, sw := range eng.contracts.sweeps {
+		fks := byPkg[sw.Pkg]
+		sort.Slice(fks, func(i, j int) bool { return fks[i].key < fks[j].key })
+		for _, f := range fks {
+			if !sw.Match.MatchString(f.key) || (sw.Except != nil && sw.Except.MatchString(f.key)) {
+				continue
+			}
+			k := sw.Pkg + "::" + f.key
+			c := eng.contracts.byKey[k]
+			if c == nil {
+				c = &Contract{Pkg: sw.Pkg, Key: f.key, File: sw.C.File, Line: sw.C.Line, Inline: true}
+				eng.contracts.byKey[k] = c
+			}
+			for _, p := range sw.C.Props {
+				if !hasProp(c.Props, p) {
+					c.Props = append(c.Props, p)
+				}
+			}
+			for _, cl := range sw.C.Clauses {
+				cp := *cl
+				if cp.Label != "" {
+					cp.Label = sw.Name + "." + cp.Label
+				} else if cp.Kind != "let" {
+					cp.Label = sw.Name
+				}
+				if len(cp.Props) == 0 {
+					cp.Props = sw.C.Props
+				}
+				c.Clauses = append(c.Clauses, &cp)
+			}
+		}
+	}
+}
